@@ -51,6 +51,7 @@ func main() {
 		syncP   = flag.String("sync", "", "")
 		osP     = flag.String("os", "", "")
 		chanP   = flag.String("chan", "", "")
+		chanCp  = flag.String("chancopy", "", "orig=virtual,...: instrumented copy of a package under a new (virtual) import path; -chan packages import the copy")
 		out     = flag.String("out", "", "output directory")
 		repoF   = flag.String("repo", "/repo", "repository working tree")
 		overlay = flag.String("overlaydir", "/verif/mc/overlay", "")
@@ -91,8 +92,26 @@ func main() {
 	mark(*osP, "os")
 	mark(*chanP, "chan")
 
+	copies := map[string]string{} // original pkg dir -> virtual pkg dir
+	for _, kv := range split(*chanCp) {
+		parts := strings.SplitN(kv, "=", 2)
+		if len(parts) != 2 {
+			fatalf("bad -chancopy %q", kv)
+		}
+		copies[parts[0]] = parts[1]
+		if pkgs[parts[0]+"=>"+parts[1]] == nil {
+			pkgs[parts[0]+"=>"+parts[1]] = map[string]bool{"chan": true, "copy": true}
+		}
+	}
+	const modPath = "github.com/specterops/dawgs/"
+
 	stats := map[string]int{}
-	for pkg, what := range pkgs {
+	for pkgKey, what := range pkgs {
+		pkg, virtual := pkgKey, ""
+		if what["copy"] {
+			parts := strings.SplitN(pkgKey, "=>", 2)
+			pkg, virtual = parts[0], parts[1]
+		}
 		entries, err := os.ReadDir(filepath.Join(repo, pkg))
 		if err != nil {
 			fatalf("%v", err)
@@ -118,8 +137,19 @@ func main() {
 			}
 			if what["chan"] {
 				rewriteChan(fe, stats)
+				for orig, virt := range copies {
+					for _, imp := range f.Imports {
+						if p, _ := strconv.Unquote(imp.Path.Value); p == modPath+orig {
+							if imp.Name == nil {
+								imp.Name = ast.NewIdent(f2pkgname(orig))
+							}
+							imp.Path.Value = strconv.Quote(modPath + virt)
+							fe.dirty = true
+						}
+					}
+				}
 			}
-			if !fe.dirty {
+			if !fe.dirty && virtual == "" {
 				continue
 			}
 			var buf bytes.Buffer
@@ -130,7 +160,11 @@ func main() {
 			if err := os.WriteFile(dst, buf.Bytes(), 0o644); err != nil {
 				fatalf("%v", err)
 			}
-			replace[src] = dst
+			if virtual != "" {
+				replace[filepath.Join(repo, virtual, name)] = dst
+			} else {
+				replace[src] = dst
+			}
 		}
 	}
 
@@ -141,6 +175,8 @@ func main() {
 	sb, _ := json.Marshal(stats)
 	_ = os.WriteFile(filepath.Join(*out, "instrument_stats.json"), sb, 0o644)
 }
+
+func f2pkgname(dir string) string { return filepath.Base(dir) }
 
 // rewriteImport points an import at a shim while keeping the package identifier the code uses.
 func (fe *fileEdit) rewriteImport(path, defaultName, shim string, stats map[string]int) {
